@@ -671,39 +671,45 @@ class HttpRequestParser(HttpParser[RawRequestMessage]):
             raise BadStatusLine(line)
         version_o = HttpVersion(int(match.group(1)), int(match.group(2)))
 
-        if method == "CONNECT":
-            # authority-form,
-            # https://datatracker.ietf.org/doc/html/rfc7230#section-5.3.3
-            url = URL.build(authority=path, encoded=True)
-        elif path.startswith("/"):
-            # origin-form,
-            # https://datatracker.ietf.org/doc/html/rfc7230#section-5.3.1
-            path_part, _hash_separator, url_fragment = path.partition("#")
-            path_part, _question_mark_separator, qs_part = path_part.partition("?")
+        try:
+            if method == "CONNECT":
+                # authority-form,
+                # https://datatracker.ietf.org/doc/html/rfc7230#section-5.3.3
+                url = URL.build(authority=path, encoded=True)
+            elif path.startswith("/"):
+                # origin-form,
+                # https://datatracker.ietf.org/doc/html/rfc7230#section-5.3.1
+                path_part, _hash_separator, url_fragment = path.partition("#")
+                path_part, _question_mark_separator, qs_part = path_part.partition("?")
 
-            # NOTE: `yarl.URL.build()` is used to mimic what the Cython-based
-            # NOTE: parser does, otherwise it results into the same
-            # NOTE: HTTP Request-Line input producing different
-            # NOTE: `yarl.URL()` objects
-            url = URL.build(
-                path=path_part,
-                query_string=qs_part,
-                fragment=url_fragment,
-                encoded=True,
-            )
-        elif path == "*" and method == "OPTIONS":
-            # asterisk-form,
-            url = URL(path, encoded=True)
-        else:
-            # absolute-form for proxy maybe,
-            # https://datatracker.ietf.org/doc/html/rfc7230#section-5.3.2
-            url = URL(path, encoded=True)
-            if not url.absolute:
-                # authority-form is only allowed with CONNECT
-                # https://www.rfc-editor.org/info/rfc9112/#section-3.2.3-1
-                raise InvalidURLError(
-                    path.encode(errors="surrogateescape").decode("latin1")
+                # NOTE: `yarl.URL.build()` is used to mimic what the Cython-based
+                # NOTE: parser does, otherwise it results into the same
+                # NOTE: HTTP Request-Line input producing different
+                # NOTE: `yarl.URL()` objects
+                url = URL.build(
+                    path=path_part,
+                    query_string=qs_part,
+                    fragment=url_fragment,
+                    encoded=True,
                 )
+            elif path == "*" and method == "OPTIONS":
+                # asterisk-form,
+                url = URL(path, encoded=True)
+            else:
+                # absolute-form for proxy maybe,
+                # https://datatracker.ietf.org/doc/html/rfc7230#section-5.3.2
+                url = URL(path, encoded=True)
+                if not url.absolute:
+                    # authority-form is only allowed with CONNECT
+                    # https://www.rfc-editor.org/info/rfc9112/#section-3.2.3-1
+                    raise InvalidURLError(
+                        path.encode(errors="surrogateescape").decode("latin1")
+                    )
+        except ValueError:
+            # yarl rejects the target (bad IPv6 literal, port out of range, ...)
+            raise InvalidURLError(
+                path.encode(errors="surrogateescape").decode("latin1")
+            ) from None
 
         # read headers
         (
